@@ -158,6 +158,10 @@ class UnitarySerializedEmulator(IndependentSubcircuitsBackend):
                     vec[i] += inp[j] * dsub[dsub_row, dsub_col]
 
         probs = numpy.abs(vec) ** 2
+        if not numpy.isfinite(probs).all():
+            raise JaqalError(
+                "The state vector is not finite: a gate matrix has an infinite or undefined entry"
+            )
 
         subcircuit = EmulatorSubcircuit(
             trace, index, probabilities=probs, state_vector=vec
